@@ -52,6 +52,12 @@ REQUIRE = {
     "c_draws_depth_16777216": 30,
     "c_draws_bright_is_bold_True": 100,
     "c_draws_bright_is_bold_False": 100,
+    "c_redraw_same_content_after_property_change": 150,
+    "c_redraw_depth_up": 40,
+    "c_redraw_depth_down": 40,
+    "c_redraw_bright_is_bold_flip_only": 40,
+    "c_redraw_same_canvas_object": 60,
+    "c_redraw_cells_restyled": 800,
 }
 RULE = (
     "(a) case = (encoding utf-8|euc-jp|ascii|iso8859-1, str|bytes markup, nested markup descriptor depth<=4 over a text of "
@@ -60,7 +66,8 @@ RULE = (
     "(b) case = (widget tree recipe of unique-glyph leaves Text/Edit/SolidFill in Pile/Columns under AttrMap/AttrWrap/"
     "fill_attr/fill_attr_apply chains with pool attribute names, width, focus, optional map mutation); "
     "(c) case = (op order of set_terminal_properties/register_palette, palette entries of every form, depth, bright_is_bold, "
-    "rows of attribute sequences); distinct = distinct descriptors; non-trivial = at least one attributed cell judged"
+    "rows of attribute sequences, 0-3 further set_terminal_properties changes each followed by a redraw of the same content on the "
+    "same started screen, ONE terminal model accumulating all output); distinct = distinct descriptors; non-trivial = at least one attributed cell judged"
 )
 ASSUMES = [
     "a blank that stands in for the cut half of a double-width character, and an inserted ellipsis, are neither source "
